@@ -130,6 +130,7 @@ fn body(run: &Run, replay: Option<&Value>) {
     }
     small_types(run);
     conversions(run);
+    float_saturation(run);
     unary32(run);
     ot_round(run);
     int24(run, &w);
@@ -144,6 +145,7 @@ fn replay_case(run: &Run, case: &Value) {
         "mul" | "div" | "be_ord" | "cmp" | "cmp16" | "cmp24" | "cmp26" | "cmp_tag" | "cmp_version" | "cmp_offset32" | "cmp_glyphid" | "cmp_ldt" => check_binary(run, a, b, &mut None),
         "mul_div" | "mul_div_26_6" => check_ternary(run, a, b, c, &mut None),
         "conv16" => conversions(run),
+        "float_sat" => float_saturation(run),
         "unary32" => {
             let mut l = Local { all: HashSet::new(), nontrivial: HashSet::new() };
             check_unary32(run, a, &mut l);
@@ -635,6 +637,67 @@ fn conversions(run: &Run) {
     run.evals(n);
     run.count("tag_strings", n);
     run.sample(json!({"op":"conv16","a":65535,"fn":"GlyphId16::try_from(GlyphId)"}));
+}
+
+/// float -> fixed conversions outside (and at the edge of) the representable range: "rounded to the nearest
+/// representable value" means saturation at MIN / MAX, never wrap-around; NaN is not judged
+fn float_saturation(run: &Run) {
+    let mut n = 0u64;
+    let mut grid: Vec<f64> = Vec::new();
+    for &base in &[0.0f64, 1.0, 2.0, 4.0, 8.0, 32.0, 32767.0, 32768.0, 65536.0, 2147483647.0, 2147483648.0, 4294967296.0, 33554432.0, 33554431.0] {
+        for &d in &[-1.0f64, -0.75, -0.5, -0.25, 0.0, 0.25, 0.5, 0.75, 1.0, 1.5, 2.5] {
+            grid.push(base + d);
+            grid.push(-(base + d));
+        }
+    }
+    grid.extend([1e9, -1e9, 1e20, -1e20, f32::MAX as f64, f32::MIN as f64, f64::MAX, f64::MIN, f64::INFINITY, f64::NEG_INFINITY]);
+    macro_rules! sat {
+        ($ty:ident, $from:ident, $fl:ty, $one:expr, $min:expr, $max:expr, $name:literal) => {{
+            // raw-unit neighbourhood of both ends of the range and of zero, in quarter units
+            let mut xs: Vec<f64> = grid.clone();
+            for &edge in &[$min as f64, $max as f64, 0.0] {
+                for q in -12..=12 {
+                    xs.push((edge + q as f64 * 0.25) / $one);
+                }
+            }
+            for x in xs {
+                let xf = x as $fl;
+                if xf.is_nan() {
+                    continue;
+                }
+                // exact reference on the value actually passed in
+                let v = xf as f64 * $one;
+                let r = if v >= 0.0 { (v + 0.5).floor() } else { (v - 0.5).ceil() };
+                let want = if r <= $min as f64 { $min as i64 } else if r >= $max as f64 { $max as i64 } else { r as i64 };
+                // skip inputs where v +/- 0.5 is not exact in the float type (none on this grid below 2^23 / 2^52)
+                n += 1;
+                match guard(|| $ty::$from(xf).to_bits() as i64) {
+                    Ok(got) => {
+                        if got != want {
+                            run.violation(
+                                &format!(concat!($name, "::", stringify!($from), " out-of-range/edge input not rounded to the nearest representable value")),
+                                &format!("{}({xf:e}) = raw {got}, nearest representable raw {want}", stringify!($from)),
+                                json!({"op":"float_sat","type":$name,"x":x}),
+                            );
+                            return;
+                        }
+                    }
+                    Err(p) => {
+                        run.violation(&format!(concat!($name, "::", stringify!($from), " panic")), &p.message, json!({"op":"float_sat","type":$name,"x":x}));
+                        return;
+                    }
+                }
+            }
+        }};
+    }
+    sat!(F2Dot14, from_f32, f32, 16384.0, i16::MIN, i16::MAX, "F2Dot14");
+    sat!(F4Dot12, from_f32, f32, 4096.0, i16::MIN, i16::MAX, "F4Dot12");
+    sat!(F6Dot10, from_f32, f32, 1024.0, i16::MIN, i16::MAX, "F6Dot10");
+    sat!(Fixed, from_f64, f64, 65536.0, i32::MIN, i32::MAX, "Fixed");
+    sat!(F26Dot6, from_f64, f64, 64.0, i32::MIN, i32::MAX, "F26Dot6");
+    run.evals(n);
+    run.trans(n);
+    run.count("float_saturation_cases", n);
 }
 
 fn small_types(run: &Run) {
